@@ -1022,7 +1022,7 @@ def gen_groups(chk, dist):
     for k in range(0, full_n + 1):
         for x in itertools.product(ALPHA, repeat=k):
             t = "".join(x)
-            if not thorough and len(t) == 3 and rng.random() >= 0.35:
+            if not thorough and len(t) == 3 and rng.random() >= 0.12:
                 continue
             g = [[S(t), cur, ops_for(t, cur)] for cur in range(len(t) + 1)]
             dist["exhaustive_texts"] += 1
@@ -1034,12 +1034,12 @@ def gen_groups(chk, dist):
     for k in range(1, fold_full + 1):
         for x in itertools.product(FOLD_SMALL, repeat=k):
             t = "".join(x)
-            if not thorough and k == 2 and rng.random() >= 0.25:
+            if not thorough and k == 2 and rng.random() >= 0.12:
                 continue
             g = [[S(t), cur, fold_ops_for(t, cur)] for cur in range(len(t) + 1)]
             dist["casefold_cases"] += len(g)
             yield g
-    for _ in range(1500 if thorough else 140):
+    for _ in range(800 if thorough else 70):
         t = "".join(rng.choice(FOLD_SMALL) for _ in range(rng.choice([3, 3, 4, 5, 8])))
         curs = sorted(set([0, len(t), rng.randint(0, len(t))]))
         g = [[S(t), cur, fold_ops_for(t, cur)] for cur in curs]
@@ -1049,26 +1049,26 @@ def gen_groups(chk, dist):
     # the character next to its one-character case variants; quick takes a sample
     cased_sorted = sorted(CASED)
     dist["casefold_wide_cases"] = 0
-    for c in (cased_sorted if thorough else rng.sample(cased_sorted, 160)):
+    for c in (cased_sorted if thorough else rng.sample(cased_sorted, 80)):
         var = [v for v in (c.swapcase(), c.upper(), c.lower(), c.title(), c.casefold()) if len(v) == 1 and v != c and v in FOLD_G]
         t = c + (var[0] if var else c) + rng.choice(FOLD_SMALL) + (var[-1] if var else c)
         g = [[S(t), cur, fold_ops_for(t, cur)] for cur in (0, len(t))]
         dist["casefold_wide_cases"] += len(g)
         yield g
-    for _ in range(1200 if thorough else 120):
+    for _ in range(600 if thorough else 60):
         t = "".join(rng.choice(FOLD_WIDE) for _ in range(rng.choice([2, 3, 4, 6])))
         curs = sorted(set([0, len(t), rng.randint(0, len(t))]))
         g = [[S(t), cur, fold_ops_for(t, cur)] for cur in curs]
         dist["casefold_wide_cases"] += len(g)
         yield g
     # a stratum of the next sizes
-    for k, cnt in ((full_n + 1, 900 if thorough else 250), (full_n + 2, 350 if thorough else 80)):
+    for k, cnt in ((full_n + 1, 600 if thorough else 100), (full_n + 2, 200 if thorough else 30)):
         for _ in range(cnt):
             t = "".join(rng.choice(ALPHA) for _ in range(k))
             curs = sorted(set([0, len(t)] + [rng.randint(0, len(t)) for _ in range(2)]))
             dist["stratum_texts"] += 1
             yield [[S(t), cur, ops_for(t, cur)] for cur in curs]
-    nrand = 4500 if thorough else 700
+    nrand = 3000 if thorough else 350
     for _ in range(nrand):
         t = rand_text(rng, 48)
         g = []
@@ -1089,7 +1089,7 @@ CACHE_OPNAMES = {1: "Document()", 2: "lines", 3: "_line_start_indexes", 4: "drop
 def gen_cache_cases(chk):
     rng = chk.rng
     out = []
-    for _ in range(400 if chk.tier == "thorough" else 60):
+    for _ in range(400 if chk.tier == "thorough" else 40):
         ops = [[rng.choice([1, 2, 2, 3, 3, 4]), S(rng.choice(CACHE_TEXTS))] for _ in range(rng.randint(2, 14))]
         out.append([-1, ops])
     # every order of lines / indexes / drop on one text
@@ -1151,7 +1151,8 @@ def oracle_cache_case(case, res):
 SLOT_OPNAMES = {1: "slot = Document(text, cursor)", 2: "slot.lines", 3: "slot._line_start_indexes", 4: "del slot",
                 5: "slot.<query>", 6: "dst = src.paste_clipboard_data(ClipboardData(data, type), mode, count)",
                 7: "dst = src.insert_after(text)", 8: "dst = src.insert_before(text)",
-                9: "dst = Document(src.text, src.cursor_position)"}
+                9: "dst = Document(src.text, src.cursor_position)",
+                10: "dst = Document(src.text, src.cursor_position, SelectionState(orig, type)).cut_selection()[0]"}
 SLOT_TEXTS = ["", "a", "a\nb", "ab\n\ncd\n", "x y\n z", "\u03a9\nab", "\n", "one\ntwo\nthree"]
 SLOT_DATA = ["x", "p\nq", "\n", "  ", "r\ns\nt", "yz", ""]
 SLOT_QUERIES = [[1], [2, 0], [3, 0, 0], [3, 1, 1], [4, 1], [4, -1], [5, 1], [5, -1], [6, 1, []], [7, 1, []], [8, 0], [8, 1],
@@ -1179,6 +1180,9 @@ def describe_slot_ops(ops):
             out.append("s%d = s%d.insert_before(%r)" % (op[2], op[1], unS(op[3])))
         elif k == 9:
             out.append("s%d = Document(s%d.text, s%d.cursor_position)" % (op[2], op[1], op[1]))
+        elif k == 10:
+            out.append("s%d = Document(s%d.text, s%d.cursor_position, SelectionState(%d, %s)).cut_selection()[0]" % (
+                op[2], op[1], op[1], op[3], ["CHARACTERS", "LINES", "BLOCK"][op[4]]))
     return "; ".join(out)
 
 
@@ -1207,8 +1211,16 @@ def gen_slot_cases(chk, dist):
         for x in ("", "\n", "z\nw"):
             out.append([-2, [[1, 0, S(t), len(t) // 2], [7, 0, 1, S(x)], [3, 1], [8, 0, 2, S(x)], [2, 2], [9, 2, 0], [3, 0], [4, 2], [2, 0]]])
             nd += 1
+    # cut_selection (all three selection types) of every text, then queries on the result and an equal-text copy
+    for t in SLOT_TEXTS:
+        for ty in (0, 1, 2):
+            for o in (0, 2, 5):
+                if not thorough and rng.random() < 0.6:
+                    continue
+                out.append([-2, [[1, 0, S(t), min(len(t), 3)], [10, 0, 1, o, ty], [3, 1], [9, 1, 2], [5, 2, [1]], [4, 1], [2, 2]]])
+                nd += 1
     # random histories
-    nr = 900 if thorough else 150
+    nr = 900 if thorough else 100
     for _ in range(nr):
         ops, filled = [], set()
         for _ in range(rng.randint(3, 16)):
@@ -1247,9 +1259,13 @@ def gen_slot_cases(chk, dist):
                 dst = rng.randint(0, 3)
                 ops.append([8, src, dst, S(rng.choice(SLOT_DATA))])
                 filled.add(dst)
-            else:
+            elif r < 0.975:
                 dst = rng.randint(0, 3)
                 ops.append([9, src, dst])
+                filled.add(dst)
+            else:
+                dst = rng.randint(0, 3)
+                ops.append([10, src, dst, rng.randint(0, 6), rng.randint(0, 2)])
                 filled.add(dst)
         out.append([-2, ops])
     dist["slot_histories"] = len(out)
@@ -1299,7 +1315,7 @@ def impl_slot_case(case, queries=None):
                 t_state = d.text if d is not None else ""
                 d = None
                 gc.collect()
-            elif code in (6, 7, 8, 9):
+            elif code in (6, 7, 8, 9, 10):
                 tgt = op[2]
                 d = live.get(op[1])
                 if d is not None:
@@ -1309,8 +1325,13 @@ def impl_slot_case(case, queries=None):
                         nd = d.insert_after(unS(op[3]))
                     elif code == 8:
                         nd = d.insert_before(unS(op[3]))
-                    else:
+                    elif code == 9:
                         nd = m.Document(d.text, d.cursor_position)
+                    else:
+                        from prompt_toolkit.selection import SelectionState
+                        tmp = m.Document(d.text, d.cursor_position, SelectionState(original_cursor_position=op[3], type=types[op[4]]))
+                        nd, clip = tmp.cut_selection()
+                        tmp = clip = None
                     val = [S(nd.text), nd.cursor_position]
                     live[tgt] = nd
                     nd = None
@@ -1348,7 +1369,7 @@ def slot_state_texts(case, res):
     for op, (val, _) in zip(case[1], res):
         code = op[0]
         t = None
-        if code == 1 or code in (6, 7, 8, 9):
+        if code == 1 or code in (6, 7, 8, 9, 10):
             dst = op[1] if code == 1 else op[2]
             if len(val) == 2 and isinstance(val[0], list):
                 live[dst] = unS(val[0])
@@ -1585,11 +1606,11 @@ def main(tier):
         "plus absent and upper-cased needles, every flag combination, bracket limits -1..len+1, 9 pattern= regexes x counts -1..3), a case-folding stratum (21 letters exhaustively to length 2, a sample (thorough: all) of the 2927 cased code points next to their case variants, random texts over 78 cased letters of other scripts), cache slot histories (each operation counts as one evaluation), a stratum of longer texts, and random "
         "texts up to 48 characters over a 34-character alphabet (blanks of every kind, brackets, wide and astral "
         "characters). Non-trivial = the query returned a non-zero offset / non-empty value; distinct by (text, cursor, query)."
-        % ("4" if chk.tier == "thorough" else "2 (35% stratum of length 3)", ALPHA))
+        % ("4" if chk.tier == "thorough" else "2 (12% stratum of length 3)", ALPHA))
     chk.assumptions += [
         "stdlib re is replaced by hand scanners written for the six pattern strings of document.py (compared with the regenerated strings on every run, Proofs/C02_Patterns.v) and by leftmost non-overlapping literal search for re.finditer(re.escape(sub), ...); tied to re only by this correspondence run",
         "re.IGNORECASE is modelled by the per-character relation regenerated on every run from CPython's re over EVERY cased code point of the interpreter (gen_t_c02.cased_code_points: 2927 with unicodedata 15.0; Gen/C02_CaseFold.v, looked up through a positive map proved equal to the pair list, proved symmetric and transitive per run); uncased characters used by the generators are listed in gen_t_c02.FOLD_UNCASED and checked there to match only themselves; ignore_case queries are generated only over cased + FOLD_UNCASED characters (the harness refuses to start otherwise); theorems hold for any character equivalence",
-        "the line cache (_text_to_document_cache) is modelled as a memo table with exactly the two fields of _DocumentCache (field list regenerated and compared in Coq, theorem C02_cache_fields) and tied by (a) create/lines/indexes/drop sequences keyed by text and (b) slot histories of live Documents: create / lines / _line_start_indexes / any query (its cache footprint is modelled) / drop / paste_clipboard_data (CHARACTERS, LINES, BLOCK x 3 modes x counts) / insert_after / insert_before / copy, comparing after every step the whole cache entry of the target text (present, cached lines VALUE, cached table VALUE, identity shared by all live equal-text Documents, unknown extra fields) with Model/C02_Cache.v; the query models themselves are cache-free (theorems C02_slots_cache_transparent/_entries say that is sound), and the runner additionally evaluates queries on fresh and long-lived Documents of equal text in shuffled order",
+        "the line cache (_text_to_document_cache) is modelled as a memo table with exactly the two fields of _DocumentCache (field list regenerated and compared in Coq, theorem C02_cache_fields) and tied by (a) create/lines/indexes/drop sequences keyed by text and (b) slot histories of live Documents: create / lines / _line_start_indexes / any query (its cache footprint is modelled) / drop / paste_clipboard_data (CHARACTERS, LINES, BLOCK x 3 modes x counts) / cut_selection (3 selection types, outside an application) / insert_after / insert_before / copy, comparing after every step the whole cache entry of the target text (present, cached lines VALUE, cached table VALUE, identity shared by all live equal-text Documents, unknown extra fields) with Model/C02_Cache.v; the query models themselves are cache-free (theorems C02_slots_cache_transparent/_entries say that is sound), and the runner additionally evaluates queries on fresh and long-lived Documents of equal text in shuffled order",
         "pattern= of find_start_of_previous_word / get_word_before_cursor is modelled for compiled regexes of the forms [s1]+|[s2]+ (disjoint sets), [^s1]+ and ^[s1]* without flags (incl. the literal patterns of FuzzyCompleter); other user regexes are outside",
         "cursor positions 0..len(text) (the constructor's assertion for cursor > len is checked; negative cursors are outside the property)",
         "CPython str slicing/split/rstrip/lstrip/partition and bisect_right are re-implemented in coq/Lib/Py.v and Model/Document.v and tied by this correspondence only"]
